@@ -37,14 +37,17 @@ def _live(entry, revoked=None):
     """Would a sane kernel still run this queued activation? (not revoked, target not closed)
 
     Revocation is for good: an activation whose signal was revoked after it had been queued stays
-    dead even if the signal object is later made valid again (`revoked`: id(signal) -> (tick of
-    its last observed revoke(), signal), fed by the soft wrapper on Interrupt.revoke)."""
+    dead even if the signal object is later made valid again (`revoked`: id(signal) -> tick of its
+    last observed revoke(), fed by the soft wrapper on Interrupt.revoke)."""
     target, signal = entry[0], entry[1]
     if signal is not None and not signal:
         return False
     if revoked and signal is not None and len(entry) > 2:
         seen = revoked.get(id(signal))
-        if seen is not None and seen[1] is signal and seen[0] >= entry[2]:
+        # (only the tick is kept, not the object - pinning every revoked signal would change the
+        # heap layout of the run; a stale record of a dead signal whose id was re-used is older
+        # than any entry queued for the new one)
+        if seen is not None and seen >= entry[2]:
             return False
     return getattr(target, "cr_frame", entry) is not None
 
@@ -101,7 +104,7 @@ class Seam:
         self.current = None       # name of the actor being activated
         self.current_target = None
         self.verdict = None
-        self.revoked = {}         # id(signal) -> (tick of the last observed revoke(), signal)
+        self.revoked = {}         # id(signal) -> tick of the last observed revoke()
         self._orig_revoke = None
 
     # -- names -------------------------------------------------------------------------
@@ -169,7 +172,7 @@ class Seam:
         orig_revoke = getattr(signal_cls, "revoke", None)
         if callable(orig_revoke):
             def revoke(signal, *args, **kwargs):
-                seam.revoked[id(signal)] = (seam.tick, signal)
+                seam.revoked[id(signal)] = seam.tick
                 return orig_revoke(signal, *args, **kwargs)
             self._orig_revoke = (signal_cls, orig_revoke)
             signal_cls.revoke = revoke
